@@ -1,4 +1,5 @@
 import TriompheModel.Proofs.HistInv
+import TriompheModel.Proofs.HistVal
 /-!
 # C01 — a shared value lives exactly as long as some owning handle does
 
@@ -78,6 +79,44 @@ theorem C01_destructor_with_release (m : Mem) (b : Nat) (t : Ty) (len : Nat) (k 
       (if k.count = 1 then payloadDrops b k t len ++
         [Event.dealloc b (t.releaseLayout len).size (t.releaseLayout len).align] else []) := by
   rw [decr_log, hk]
+
+/-! ### values: destroyed at most once, and exactly at the last release
+
+`FreshIds ops`: the identities of the values handed to the constructors / `writeSlot` in the history
+are pairwise distinct (and below the range `Clone` draws new identities from) — what the harness's
+identity-tracked payloads guarantee.  It is a decidable hypothesis, satisfied by `exampleValHistory`. -/
+
+/-- **no value is destroyed twice**, in any history -/
+theorem C01_destructor_at_most_once (ops : List Op) (h : FreshIds ops) : (dropIds (run ops).mem.log).Nodup :=
+  drop_at_most_once ops h
+
+/-- **nothing is destroyed early**: whatever a live block stores has not been destroyed -/
+theorem C01_nothing_destroyed_early (ops : List Op) (h : FreshIds ops) (b : Nat) (k : Block)
+    (hk : (run ops).mem.blocks[b]? = some k) (hl : k.live = true) :
+    ∀ i, i ∈ k.ids → i ∉ dropIds (run ops).mem.log :=
+  live_values_not_destroyed ops h b k hk hl
+
+/-- **the destructor runs exactly at the last release**: dropping the sole owner through an
+initialised view destroys exactly the values the block stores (header, then every element) … -/
+theorem C01_last_release_destroys_the_value (ops : List Op) (src : Nat) (h : HV)
+    (hs : lookup (run ops) src = some h) (hown : owners (run ops) h.blk = 1)
+    (hinit : (asArc (run ops).mem h).ty.elemsInit = true) (hd : (dropHandle (run ops).mem h).isSome = true) :
+    ∃ k : Block, (run ops).mem.blocks[h.blk]? = some k ∧
+      dropIds (step (run ops) (.drop src)).1.mem.log = dropIds (run ops).mem.log ++ k.ids :=
+  drop_releases_exactly (run ops) src h (inv_run ops) (leninv_run ops) hs hown hinit hd
+
+/-- … and releasing one of several owners destroys nothing -/
+theorem C01_other_release_destroys_nothing (ops : List Op) (src : Nat) (h : HV)
+    (hs : lookup (run ops) src = some h) (hown : owners (run ops) h.blk ≠ 1) :
+    dropIds (step (run ops) (.drop src)).1.mem.log = dropIds (run ops).mem.log :=
+  drop_shared_destroys_nothing (run ops) src h (inv_run ops) hs hown
+
+/-- only values that were handed in (or made by `Clone`) are ever destroyed -/
+theorem C01_only_known_values_destroyed (ops : List Op) (h : FreshIds ops) :
+    ∀ i, i ∈ dropIds (run ops).mem.log → i ∈ histIds ops ∨ 1000000 ≤ i :=
+  destroyed_values_were_handed_in ops h
+
+example : FreshIds exampleValHistory := by decide
 
 /-- abandoned blocks (panicking constructor) are never referred to by anything -/
 theorem C01_abandoned_unowned (ops : List Op) (b : Nat) (k : Block) (hk : (run ops).mem.blocks[b]? = some k)
